@@ -377,7 +377,8 @@ def run_sim(case, fail):
                         groups.setdefault(g, []).append((k, p))
                     for g, lst in groups.items():
                         q = list(sim.h.queues.get(g, []))
-                        if q != sorted(lst):
+                        # time order; files with EQUAL time stamps (same name in two subdirectories) may come in any order
+                        if [x[0] for x in q] != [x[0] for x in sorted(lst)] or sorted(q) != sorted(lst):
                             fail("queue-order", "step %d %r group %s queue %r model %r" % (si, op, g[1], [x[0] for x in q], [x[0] for x in sorted(lst)]))
                     for g, q in sim.h.queues.items():
                         if len(q) and g not in groups:
@@ -518,6 +519,13 @@ def directed_cases(tier):
             out.append({"nch": 1, "kinds": ["rf"], "slots": 6, "limits": lim, "ops": [
                 {"o": "create", "f": 0, "size": 2048, "event": True}, {"o": "create", "f": 1, "size": 2048, "event": True},
                 {"o": "rename_sub", "f": 0}] + mid + [{"o": "create", "f": i, "size": 2048, "event": True} for i in (2, 3, 4, 5)]})
+    # limits in combination: one group fills the size limit, then the FIRST file of another group (second channel, or the
+    # channel's metadata) is reported - every configured limit must hold again afterwards
+    for lim in ({"size": 8192, "duration": 2500}, {"size": 8192, "duration": 2500, "count": 5}, {"size": 8192, "count": 5}):
+        for nch, kinds in ((2, ["rf"]), (1, ["rf", "dmd"])):
+            out.append({"nch": nch, "kinds": kinds, "slots": 6, "limits": lim, "ops":
+                        [{"o": "create", "f": i, "size": 2048, "event": True} for i in (0, 1, 2, 3)] +
+                        [{"o": "create", "f": 6, "size": 2048, "event": True}, {"o": "create", "f": 7, "size": 2048, "event": True}]})
     return out
 
 
